@@ -1,7 +1,7 @@
 INIT Init
 NEXT Next
 CONSTANTS
-  Blocks = {"data", "tags", "meta", "cross", "seq", "seq3", "seqbig"}
+  Blocks = {"data", "tags", "meta", "cross", "seq", "seq3", "seqbig", "seqts"}
   Script <- NoScript
   T0 = 2000000043
   FutureSlots = 3
